@@ -297,3 +297,46 @@ def i2w(ctx):
 
 
 RULES.append(i2w)
+
+
+@rule("I7", doc="lookup_rec_expr mirrors add_expr: children first, in order, then the node itself")
+def i7(ctx):
+    crate = ctx.lib()
+    lr = crate.free_fn("lookup_rec_expr")
+    ae = crate.method("egraph::EGraph", "add_expr")
+    if len(lr) != 1 or len(ae) != 1:
+        raise mir.AnchorMissing("lookup_rec_expr / EGraph::add_expr")
+    lr, ae = lr[0], ae[0]
+    for b, fin, what in ((lr, "lookup", "lookup_rec_expr"), (ae, "add", "add_expr")):
+        rec = [c for c in b.calls if c.callee and c.callee.target == b.id and not b.blocks[c.bb]["cleanup"]]
+        last = [c for c in b.calls if c.callee and c.callee.name == fin and c.callee.target != b.id and not b.blocks[c.bb]["cleanup"]]
+        ctx.check(len(rec) == 1 and len(last) == 1, "shape:" + what, "%s recurses on the children and finishes with %s(node)" % (what, fin), "%s no longer has one recursive call and one final %s" % (what, fin), where_of(b))
+        if len(rec) != 1 or len(last) != 1:
+            continue
+        loops = C.iterator_loops(b)
+        inl = [l for l in loops if rec[0].bb in b.reach(l[3], avoid=l[2])]
+        ok = len(inl) == 1
+        if ok and what == "add_expr":
+            ok = C.loop_exhaustive(b, inl[0])
+        ctx.check(ok, "children-loop:" + what, "%s visits the children in one loop%s" % (what, " exhaustively" if what == "add_expr" else " (leaving it only when a child is not represented)"),
+                  "%s does not visit all children" % what, where_of(b))
+        # the i-th child result is written to the i-th applied-id occurrence of the node
+        st = [s for bi, si, s in b.statements() if s["k"] == "assign" and s["lhs"]["p"] == ["*"] and role_mentions_call(b.role_of_rvalue(s["rv"]), b.name)]
+        idx_ok = False
+        for c in b.calls:
+            if c.callee and c.callee.name == "index_mut" and role_mentions_call(b.role_of_operand(c.args[0]), "applied_id_occurrences_mut"):
+                i_w = role_str(b.role_of_operand(c.args[1]))
+                child = role_str(b.role_of_operand(rec[0].args[0 if what == "lookup_rec_expr" else 1]))
+                # same loop counter drives the child index and the occurrence index
+                idx_ok = ("next(" in i_w) and ("next(" in child)
+        ctx.check(bool(st) and idx_ok, "child-to-occurrence:" + what, "the i-th child's result replaces the i-th applied-id occurrence",
+                  "%s does not store the i-th child's result into the i-th applied-id occurrence of the node" % what, where_of(b))
+        # the final call dominates nothing else and gets the patched node
+        ctx.check(b.dominated_by(last[0].bb, inl[0][2]) if inl else False, "node-after-children:" + what, "the node is looked up / added only after all children were processed",
+                  "%s handles the node before its children are done" % what, where_of(b, last[0].bb))
+    # lookup_rec_expr gives up as soon as a child is missing (returns None), never inserts
+    muts = [c.callee.name for c in lr.all_calls() if c.callee and any((mir.op_place(a) or {}).get("l") is not None and not (mir.op_place(a) or {}).get("p") and lr.local_ty(mir.op_place(a)["l"]).startswith("&mut egraph::EGraph<") for a in c.args)]
+    ctx.check(not muts, "lookup-rec-read-only", "lookup_rec_expr passes the e-graph mutably to nothing", "lookup_rec_expr calls %s with &mut EGraph" % muts, where_of(lr))
+
+
+RULES.append(i7)
